@@ -31,6 +31,14 @@ func runC15(e *Env) {
 	r.Rule("C15.R2", "paths", "no mutation before an ErrTooSmall report", 7)
 	r.Rule("C15.R3", "flows", "option values live in the message's own, only-advancing value buffer", 8)
 	r.Rule("C15.R4", "tables+siblings", "255-byte limit and empty-segment handling agree", 4)
+	r.Rule("C15.R5", "absint+bounds", "unsigned option values: minimal-length big-endian classes 0/1/2/3/4 bytes, decoder inverse, every write in range", 5)
+	r.Rule("C15.R6", "flows", "the option list grows only through the Find-positioned insertions (Set, Add) and the ascending parser", 4)
+	if e.want("C15.R5") {
+		uintCodecClasses(e, "C15.R5")
+	}
+	if e.want("C15.R6") {
+		c15WhoGrows(e)
+	}
 	if e.want("C15.R1") {
 		c15FindBound(e)
 		c15RetryAgreement(e)
@@ -385,4 +393,133 @@ func c15PathLimits(e *Env) {
 		}
 		e.R.Check(okSkip, rule, q+":skips-empty-segments", e.fpos(f), "an empty segment (separator at position 0) is skipped", "empty segments are not skipped here, unlike in the sibling function")
 	}
+}
+
+// uintCodecClasses: EncodeUint32 writes v in exactly 0/1/2/3/4 bytes for v = 0, ≤0xff, ≤0xffff, ≤0xffffff, larger; the bytes
+// are v's big-endian bytes (bit provenance); DecodeUint32 on those bytes returns v; every write of the encoder is in range
+// when the buffer has exactly the length its own guard asks for. Run under C15 (typed setters) and C19 (Block option values
+// are 0–3 bytes on the wire).
+func uintCodecClasses(e *Env, rule string) {
+	enc := e.fn(rule, "message.EncodeUint32")
+	dec := e.fn(rule, "message.DecodeUint32")
+	if enc == nil || dec == nil {
+		return
+	}
+	type cell struct {
+		name   string
+		lo, hi int64
+		n      int
+	}
+	cells := []cell{{"0", 0, 0, 0}, {"1..0xff", 1, 0xff, 1}, {"0x100..0xffff", 0x100, 0xffff, 2}, {"0x10000..0xffffff", 0x10000, 0xffffff, 3}, {"0x1000000..", 0x1000000, 0xffffffff, 4}}
+	for _, c := range cells {
+		construct := "message.EncodeUint32↔DecodeUint32:class " + c.name
+		// the destination has exactly c.n bytes: the encoder's own length guard must make that sufficient
+		it := core.NewInterp(e.P)
+		var buf *core.AVal
+		v := core.SymInt("v", 32, false, bigI(c.lo), bigI(c.hi), 32)
+		outs := it.RunWith(enc, func(st *core.AState) []*core.AVal {
+			zero := make([]*core.AVal, c.n)
+			for i := range zero {
+				zero[i] = core.ConstAInt(bigI(0), 8, false)
+			}
+			buf = st.NewArray(zero)
+			return []*core.AVal{buf, v}
+		})
+		ok, why := len(outs) >= 1, "no outcome"
+		for _, o := range outs {
+			if o.Abort || o.Panic || len(o.Ret) != 2 || o.Ret[1].ErrNil != 1 {
+				ok, why = false, "with a destination of exactly "+fmt.Sprint(c.n)+" byte(s) the encoder fails, panics or is undecided: "+core.SummarizeOutcomes([]core.Outcome{o})
+				continue
+			}
+			if k, isC := o.Ret[0].IsConst(); !isC || k.Int64() != int64(c.n) {
+				ok, why = false, fmt.Sprintf("values of the class are written in %s byte(s), not %d (not the minimal-length form: the parser drops over-long Block options, longer forms change the wire size)", o.Ret[0], c.n)
+				continue
+			}
+			for _, ev := range o.St.Events {
+				ok, why = false, "out-of-range write / wrap: "+ev
+			}
+			bs := o.St.Bytes(buf)
+			for i := 0; i < c.n && i < len(bs); i++ {
+				if m := core.MatchBits(bs[i], o.St.Assume, core.BitField{Sym: "v", From: 8 * (c.n - 1 - i), N: 8}); m != "" {
+					ok, why = false, fmt.Sprintf("byte %d is not v[%d..%d]: %s", i, 8*(c.n-1-i), 8*(c.n-1-i)+7, m)
+				}
+			}
+			if !ok {
+				continue
+			}
+			// decoder on the written bytes
+			itd := core.NewInterp(e.P)
+			od := itd.RunIn(o.St, dec, func(st *core.AState) []*core.AVal { return []*core.AVal{buf} })
+			if len(od) == 0 {
+				ok, why = false, "decoder has no outcome"
+			}
+			for _, d := range od {
+				if d.Abort || d.Panic || len(d.Ret) != 3 || d.Ret[2].ErrNil != 1 {
+					ok, why = false, "decoder fails or is undecided: "+core.SummarizeOutcomes([]core.Outcome{d})
+					continue
+				}
+				if m := core.MatchBits(d.Ret[0], d.St.Assume, core.BitField{Sym: "v", From: 0, N: 8 * c.n}); m != "" && c.n > 0 {
+					ok, why = false, "decoded value is not v: "+m
+				}
+				if k, isC := d.Ret[1].IsConst(); !isC || k.Int64() != int64(c.n) {
+					ok, why = false, "decoder does not report "+fmt.Sprint(c.n)+" consumed byte(s)"
+				}
+			}
+		}
+		e.R.Check(ok, rule, construct, e.fpos(enc), fmt.Sprintf("%d byte(s), big-endian bytes of v, decoder returns v", c.n), why)
+	}
+	// in-range obligations of the encoder for every buffer length (dominating guards)
+	for _, f := range []*ssa.Function{enc} {
+		b := core.NewBounds(e.P, f, nil)
+		for _, o := range b.Obligations() {
+			construct := fmt.Sprintf("%s:%s %s", core.FnName(f), o.Kind, o.Desc)
+			e.R.Check(o.OK, rule, construct, e.pos(o.Instr), "in range on every path", "a typed setter can index out of range (panic) when the value buffer has just the length the guard asked for: "+o.Why)
+		}
+	}
+}
+
+// c15WhoGrows: an `append` producing a message.Options value appears only in the insertion primitives. Anything else that
+// appends options bypasses Find's positioning and can leave the list unsorted.
+func c15WhoGrows(e *Env) {
+	rule := "C15.R6"
+	allowed := map[string]string{
+		"message.Options.Set":       "grows by one slot, then shifts to the position Find returned",
+		"message.Options.Add":       "grows by one slot, then shifts to the position Find returned",
+		"message.Options.Unmarshal": "parser: option numbers are accumulated deltas, ascending by construction",
+	}
+	seen := map[string]bool{}
+	for _, f := range e.P.SrcFuncs(false) {
+		name := core.FnName(f)
+		if strings.HasPrefix(name, "examples/") {
+			continue
+		}
+		core.Instrs(f, func(in ssa.Instruction) {
+			c, ok := in.(*ssa.Call)
+			if !ok {
+				return
+			}
+			b, isB := c.Call.Value.(*ssa.Builtin)
+			if !isB || b.Name() != "append" || core.TypeName(c.Type()) != "message.Options" {
+				return
+			}
+			root := name
+			if p := f.Parent(); p != nil {
+				root = core.FnName(p)
+			}
+			if why, ok := allowed[root]; ok {
+				if !seen[root] {
+					seen[root] = true
+					e.R.Ok(rule, root+":append", e.pos(c), "listed insertion primitive: "+why)
+				}
+				return
+			}
+			e.R.Fail(rule, root+":append", e.pos(c), "the option list is extended with append outside Set/Add/Unmarshal: the new option is not positioned by Find, so the list can stop being ascending by option number (binary search then misses present options)")
+		})
+	}
+	for a := range allowed {
+		if !seen[a] {
+			e.R.Undecided(rule, a+":append", "-", "listed insertion primitive no longer appends; update the table")
+		}
+	}
+	e.R.Ok(rule, "module:no-other-append", "-", "no other function of the module appends to a message.Options value")
 }
